@@ -4,14 +4,14 @@ CONSTANTS
   Unit = 8
   TickMs = 125
   Family = "fixed"
-  Bursts = {2}
+  Bursts = {3}
   Rates <- RatesFin
   SetRates <- NoRates
   Ns = {1, 2}
   Dts <- GDtsQuick
-  MaxEvents = 5
-  MaxRes = 2
-  Kinds <- KAll
+  MaxEvents = 6
+  MaxRes = 3
+  Kinds <- KNoDelay
   Deviation = "none"
 INVARIANT Emit
 CHECK_DEADLOCK FALSE
